@@ -107,6 +107,15 @@ def _freeze(snap):
 # ------------------------------------------------------------------------------ content for bars
 
 SIGS = [(4, 4), (3, 4), (2, 4), (6, 8), (2, 2), (5, 4), (3, 8), (8, 8), (12, 8), (7, 8), (2, 8), (4, 8)]
+# bars of at most a quarter note (capacity 3 .. 24 ticks): every "bar length versus a note value" comparison in the
+# library flips here; none has a capacity that is not a whole number of ticks
+SHORT_SIGS = [(1, 8), (1, 8), (1, 16), (3, 16), (2, 16), (1, 4), (1, 32), (3, 32), (5, 32), (7, 32)]
+
+
+def _pick_sig(rng, pool=None):
+    if rng.random() < 0.12:
+        return rng.choice(SHORT_SIGS)
+    return rng.choice(pool or SIGS)
 
 
 def gen_bar_spec(rng, n, d, fill="random", channel=0, pitches=None, grid=None):
@@ -503,6 +512,8 @@ class FamWorld:
                     ref_before = canon_views(ref_seq)
                 except Unreadable:
                     ref_fam = None
+        if ref_fam is not None and name == "scale" and not seqops.pre_scale(s, args, ref_seq):
+            return "skip:precondition"
         if ref_fam is not None:
             if name == "scale":
                 _, e = _call(s.scale, args["factor"], ref_seq, args.get("q", False))
@@ -906,20 +917,37 @@ def _snap_diff(old, new):
 # generation
 # =====================================================================================
 
-def _gen_seq_init(rng, channels=(0,)):
+def _gen_seq_init(rng, channels=(0,), prop="C16"):
     if rng.random() < 0.5:
         spec = music.gen_music(rng, max_notes=rng.choice([3, 6, 10]), channels=channels, allow_empty=False)
+        if rng.random() < 0.1:
+            spec["tsigs"] = [[0, *rng.choice(SHORT_SIGS)]]
     else:
         nb = rng.randrange(1, 4)
-        sigs = [rng.choice(SIGS[:6])] * nb if rng.random() < 0.7 else [rng.choice(SIGS[:6]) for _ in range(nb)]
+        sigs = [_pick_sig(rng, SIGS[:6])] * nb if rng.random() < 0.7 else [_pick_sig(rng, SIGS[:6]) for _ in range(nb)]
         spec, _ = gen_piece_spec(rng, sigs)
         if rng.random() < 0.3:
             spec["keys"].append([0, rng.choice(music.KEYS)])
+    if prop == "C11" and rng.random() < 0.2:
+        # integer-tick input that is not well-formed (C11 quantifies over all integer-tick sequences): note-ons that are
+        # never closed - pairing-based operations impute their end - and note-offs that close nothing
+        end = max(1, music.spec_duration(spec))
+        used = {(x[0], x[1]) for x in spec["notes"]}
+        for _ in range(rng.randrange(1, 3)):
+            ch, p_ = rng.choice(channels), rng.randrange(30, 100)
+            if (ch, p_) in used:
+                continue
+            used.add((ch, p_))
+            tick = rng.choice([rng.randrange(0, end + 1), rng.randrange(max(0, end - 24), end + 1), 6 * rng.randrange(0, end // 6 + 1)])
+            if rng.random() < 0.75:
+                spec.setdefault("lone", []).append([ch, p_, tick, rng.randrange(1, 128)])
+            else:
+                spec.setdefault("stray", []).append([ch, p_, tick])
     return {"kind": "seq", "spec": spec, "mode": rng.choice(["abs", "rel", "both"])}
 
 
 def _gen_bar_ini(rng, fill="random", channel=0):
-    n, d = rng.choice(SIGS)
+    n, d = _pick_sig(rng)
     return {"spec": gen_bar_spec(rng, n, d, fill=fill, channel=channel), "mode": rng.choice(["abs", "rel", "both"]),
             "sig": [n, d], "key": rng.choice([None, None] + music.KEYS)}
 
@@ -927,7 +955,7 @@ def _gen_bar_ini(rng, fill="random", channel=0):
 def _gen_family_init(rng, prop):
     r = rng.random()
     if r < (0.55 if prop == "C16" else 0.35):
-        return _gen_seq_init(rng, (0,) if rng.random() < 0.8 else (0, 1))
+        return _gen_seq_init(rng, (0,) if rng.random() < 0.8 else (0, 1), prop)
     if r < 0.75:
         return {"kind": "bar", "bars": [_gen_bar_ini(rng)]}
     if r < 0.9:
@@ -1039,7 +1067,7 @@ def _gen_event(rng, world, knobs, prop):
         if r2 < knobs["p_tok"] + 0.12:
             return {"op": "to_sequence", "fam": fi}
         if r2 < knobs["p_tok"] + 0.3 and fam.kind == "seq":
-            n, d = rng.choice(SIGS)
+            n, d = _pick_sig(rng)
             return {"op": "make_bar", "fam": fi, "sig": [n, d], "key": rng.choice([None] + music.KEYS[:4])}
     return _gen_act(rng, world, fi, fam, knobs["inplace_bias"])
 
